@@ -130,6 +130,9 @@ SiteTab == [
   wap_href_local  |-> S("dqattr", "quote"),
   wap_href_url    |-> S("dqattr", HrefXf),      \* HrefRaw
   wap_href_host   |-> S("dqattr", HrefXf),      \* HrefRaw
+  wap_href_local_nokey |-> S("dqattr", "quote"),  \* the same three links once the 12 access keys are spent: getrenderstr
+  wap_href_url_nokey   |-> S("dqattr", HrefXf),   \*   takes its other branch ('<a href="%s">' without accesskey) for
+  wap_href_host_nokey  |-> S("dqattr", HrefXf),   \*   the 13th and every later link of a menu
   wap_name        |-> S("text", "esc"),
   wap_go_local    |-> S("dqattr", "quote"),
   wap_go_host     |-> S("dqattr", HrefXf),      \* HrefRaw
@@ -166,10 +169,10 @@ GopherlinkSiteFor(sel) == IF GetUrlLiteral(sel) THEN "http_gopherlink_lit" ELSE 
 
 C(id, proto, src, seps, norm, sites) ==
     [id |-> id, proto |-> proto, src |-> src, seps |-> seps, norm |-> norm, sites |-> sites,
-     urlfilter |-> FALSE, refused |-> <<>>, rtwin |-> "", pfx |-> ""]
+     urlfilter |-> FALSE, refused |-> <<>>, rtwin |-> "", pfx |-> "", short |-> FALSE, pad |-> 0]
 CU(id, proto, sites, refused, rtwin) ==      \* rtwin: the combo whose page a refused URL selector gets
     [id |-> id, proto |-> proto, src |-> "urlsel", seps |-> "none", norm |-> "id", sites |-> sites,
-     urlfilter |-> TRUE, refused |-> refused, rtwin |-> rtwin, pfx |-> ""]
+     urlfilter |-> TRUE, refused |-> refused, rtwin |-> rtwin, pfx |-> "", short |-> FALSE, pad |-> 0]
 \* a name with a reserved prefix, planted at the document root (selector = "/" + pfx + name): the sites are derived
 \* from the branch tests above, not listed by hand
 CP(proto, src, pfx) ==
@@ -181,7 +184,7 @@ CP(proto, src, pfx) ==
                    [] proto = "wap" /\ src = "filename" -> <<HrefSiteFor("wap", sel), "wap_name">>
                    [] OTHER -> <<"gp_info", "gp_info">>
     IN [id |-> proto \o "/" \o src \o "@" \o pfx, proto |-> proto, src |-> src, seps |-> "none", norm |-> "id",
-        sites |-> sites, urlfilter |-> FALSE, refused |-> <<>>, rtwin |-> "", pfx |-> pfx]
+        sites |-> sites, urlfilter |-> FALSE, refused |-> <<>>, rtwin |-> "", pfx |-> pfx, short |-> TRUE, pad |-> 0]
 PrefixCombos == {CP(pr, sr, px) : pr \in {"http", "wap", "gplus"}, sr \in {"dirname", "filename"},
                                   px \in NamePrefixes \ {""}}
 
@@ -241,7 +244,36 @@ GplusCombos == {
   C("gplus/gmaphost", "gplus", "gmaphost", "lf", "id", <<"gp_info">>),
   C("gplus/linkname", "gplus", "linkname", "crlf", "id", <<"gp_info">>) }
 
-AllCombos == HttpCombos \cup WapCombos \cup GplusCombos \cup PrefixCombos
+\* POSITION of the data in a long menu: the same line-based sources with `pad` ordinary links in front, so that the
+\* data is link number pad+1.  WAP hands out 12 access keys; later links are rendered by the other branch.
+AccessKeys == 12
+KeyedWapHrefs == {"wap_href_local", "wap_href_url", "wap_href_host"}
+MenuSources == {"gmapname", "gmapsel", "gmapurl", "gmaphost", "gmap7", "gmap7host", "linkname", "linkurl", "linkhost"}
+RECURSIVE NatStr(_)
+NatStr(n) == IF n < 10 THEN SubSeq("0123456789", n + 1, n + 1) ELSE NatStr(n \div 10) \o NatStr(n % 10)
+Padded(c, k) ==
+    [c EXCEPT !.id = c.id \o "#" \o NatStr(k + 1), !.pad = k, !.short = TRUE,
+              !.sites = [i \in 1..Len(c.sites) |->
+                            IF c.proto = "wap" /\ k >= AccessKeys /\ c.sites[i] \in KeyedWapHrefs
+                            THEN c.sites[i] \o "_nokey" ELSE c.sites[i]]]
+Pads == {12, 19}                                   \* link number 13 (first without a key) and 20
+PadCombos == {Padded(c, k) : c \in {x \in HttpCombos \cup WapCombos : x.src \in MenuSources}, k \in Pads}
+
+\* STRUCTURE of the HTML title the name is taken from (handlers/html.py feeds the file line by line until the first
+\* </title>, then closes the parser, which flushes text it still buffers; the collected text is whitespace-collapsed):
+\*   htmltitleref    one title; CR / LF written as character references (&#13; &#10; &#x0a;)
+\*   htmltitle2      a complete title followed ON THE SAME LINE by a second, unterminated one holding the data (refs):
+\*                   its text reaches the parser's handler only at close() - and is collapsed like the rest
+\*   htmltitleafter  the data follows </title> outside any title: not part of the name
+\*   htmltitleopen   the only title is never closed: no title is taken
+TitleCombo(proto, src, site) ==
+    [C(proto \o "/" \o src, proto, src, "none", IF site = "" THEN "opaque" ELSE "ws", IF site = "" THEN <<>> ELSE <<site>>)
+        EXCEPT !.short = TRUE]
+NameSiteOf(proto) == CASE proto = "http" -> "http_name" [] proto = "wap" -> "wap_name" [] OTHER -> "gp_info"
+TitleCombos == {TitleCombo(pr, sr, NameSiteOf(pr)) : pr \in {"http", "wap", "gplus"}, sr \in {"htmltitleref", "htmltitle2"}}
+          \cup {TitleCombo(pr, sr, "") : pr \in {"http", "wap", "gplus"}, sr \in {"htmltitleafter", "htmltitleopen"}}
+
+AllCombos == HttpCombos \cup WapCombos \cup GplusCombos \cup PrefixCombos \cup PadCombos \cup TitleCombos
 ComboOf(id) == CHOOSE c \in AllCombos : c.id = id
 
 --------------------------------------------------------------------------------
